@@ -134,7 +134,7 @@ def pdks():
     return out
 
 
-def make_design(prim, params: dict, label: str):
+def make_design(prim, params: dict, label: str, variant: dict = None):
     """Top -> Mid -> Leafmod(prim), Leafmod shared; unmapped instances beside.  Returns (top, leafmod)."""
     import hdl21 as h
 
@@ -144,6 +144,8 @@ def make_design(prim, params: dict, label: str):
     conns = {p: leaf.add(h.Port(width=port.width), name=p) for p, port in call.ports.items()}
     leaf.add(h.Instance(of=call)(**conns), name="x")
     leaf.add(h.Instance(of=prim(**params))(**conns), name="y")  # equal parameters, separately constructed call
+    if variant:  # the same device and size, but other fingers / multiplier
+        leaf.add(h.Instance(of=prim(**{**params, **variant}))(**conns), name="z")
     leaf.add(h.Instance(of=h.R(r=11))(p=list(conns.values())[0], n=list(conns.values())[-1]), name="rkeep")
     mid = h.Module(name=f"PdkMid{n}")
     sigs = {p: mid.add(h.Signal(width=port.width), name=f"s_{p}") for p, port in call.ports.items()}
@@ -217,8 +219,9 @@ def judge_device(rec, pname, P, entry, sizes):
     case = {"kind": "device", "pdk": pname, "device_kind": kind, "model": str(model or key), "sizes": sizes}
     rec.case(key=label, nontrivial=True, sample=case if rec.evaluations % 150 == 9 else None)
     _walk["label"], _walk["case"] = label, case
+    variant = {"nf": 2, "mult": 5} if kind == "mos" else None
     try:
-        top, leaf = make_design(prim, params, label)
+        top, leaf = make_design(prim, params, label, variant)
         before = h.to_proto(top)
     except Exception as e:
         rec.count("device.uncompiled-design-rejected")
@@ -246,6 +249,17 @@ def judge_device(rec, pname, P, entry, sizes):
     # equal parameters give the same device call
     if not same_value(x.of, y.of):
         rec.violation("equal-params-different-calls", f"[{label}] two instances with equal primitive parameters got different device calls", case=case, pdk=pname)
+    # same device and size, other fingers / multiplier: must not be served from a cache entry of x
+    if variant and "z" in leaf.instances and isinstance(leaf.instances["z"].of, h.ExternalModuleCall):
+        zp = leaf.instances["z"].of.params
+        zget = (lambda k: zp.get(k)) if isinstance(zp, dict) else (lambda k: getattr(zp, k, None))
+        zhas = (lambda k: k in zp) if isinstance(zp, dict) else (lambda k: hasattr(zp, k))
+        if zhas("nf") and not same_value(zget("nf"), 2):
+            rec.violation("device-fingers-wrong", f"[{label}] an instance requesting nf=2 got device parameter nf={zget('nf')}", case=case, pdk=pname)
+        zm = [k for k in ("mult", "m") if zhas(k)]
+        if zm and not any(same_value(zget(k), 5) for k in zm):
+            rec.violation("device-multiplier-wrong", f"[{label}] an instance requesting mult=5 got {[(k, str(zget(k))) for k in zm]}", case=case, pdk=pname,
+                          device_kind=kind)
     # unmapped instances untouched
     if not isinstance(leaf.instances["rkeep"].of, h.PrimitiveCall) or leaf.instances["rkeep"].of.prim is not h.primitives.IdealResistor:
         rec.violation("unmapped-instance-touched", f"[{label}] an ideal resistor instance was changed by compile", case=case, pdk=pname)
